@@ -17,7 +17,7 @@ def split_line(l):
     parts = l.split(" ")
     out, kv = [], {}
     for p in parts:
-        if "=" in p and p.split("=", 1)[0] in ("acts", "crash", "rec"):
+        if "=" in p and p.split("=", 1)[0] in ("acts", "crash", "rec", "ploss"):
             k, v = p.split("=", 1)
             kv[k] = v
         else:
@@ -354,6 +354,17 @@ def oracle(raw, ann, res):
                         fails.append(("c03-index-reject", i, "kill point of a refused insert recovers to %s, acknowledged state is %s" % (o, show_exp(before))))
                     else:
                         fails.append(("c01", i, "kill point (after %s actions) of `%s` recovers to %s; allowed %s" % (j, a[:60], o, sorted(allowed))))
+            # the same instants under POWER LOSS (fsync=always): un-synced bytes and un-synced directory changes dropped
+            for o in (kv.get("ploss", "-").split("#") if kv.get("ploss", "-") != "-" else []):
+                if op == "cfg":
+                    if o not in ("[]", "err:no_manifest"):
+                        fails.append(("c01-power-loss", i, "power loss during initialisation recovers to %s" % o))
+                elif o.startswith("err:"):
+                    fails.append(("c01-power-loss", i, "power loss inside `%s`: strict restart fails with %s (every kill point of the op recovers)" % (a[:60], o)))
+                elif o in partial:
+                    fails.append(("c01-batch-partial", i, "power loss inside `%s` recovers to %s: a proper prefix of the batch is applied" % (a[:60], o)))
+                elif o not in allowed:
+                    fails.append(("c01-power-loss", i, "power loss inside `%s` recovers to %s; allowed %s" % (a[:60], o, sorted(allowed))))
             # a failed op must leave the recovered state unchanged (last crash point = op boundary)
             if op in ("insert", "delete", "batch_delete", "update") and out in ("rejected", "full", "err"):
                 last = items[-1].split(":", 1)[1]
